@@ -3,7 +3,10 @@
 import re, sys, os
 V = os.path.dirname(os.path.dirname(os.path.abspath(__file__)))
 for pid in sys.argv[1:]:
+    import glob
     src = open(f"{V}/lean/Martian/Props/{pid}.lean").read()
+    for sub in sorted(glob.glob(f"{V}/lean/Martian/Props/{pid}/*.lean")):
+        src += "\n" + open(sub).read()
     src = re.sub(r"/-.*?-/", "", src, flags=re.S)
     src = re.sub(r"--.*", "", src)
     names = re.findall(r"^\s*theorem\s+([A-Za-z0-9_'.]+)", src, flags=re.M)
